@@ -55,6 +55,11 @@ class Stream(Family):
                     texts = ['a' + lf_pair + 'b\r\nsecond\r\n', lf_pair + '\r\nx']
                     if crlf_triple:
                         texts += ['a' + crlf_triple + 'b\nsecond\n', crlf_triple + '\nx']
+                    # ... and the misaligned newline directly followed by a 0x20 BYTE (part of a character), with indent
+                    sp = {'utf-16-le': 'x\u0a41\u2000y\nz\n', 'utf-16': 'x\u0a41\u2000y\nz\n', 'utf-16-be': 'x\u2000\u0a20y\nz\n',
+                          'utf-32-le': 'x\u0a41\u2000y\nz\n', 'utf-32': 'x\u0a41\u2000y\nz\n'}.get(codec)
+                    if sp:
+                        texts += [sp, sp.replace('\n', '\r\n')]
                     t = texts[(i // 20) % len(texts)]
                     ind = [None, {'i': 0}, {'i': 4}, 'omitted'][(i // 20) % 4]
                     yield dict(kind='wellformed', main=codec, misaligned=True,
@@ -220,6 +225,11 @@ INVALID = [
     (['write_diff', sl.Bv(b'x\n'), sl.S('weird'), None, None], True),
     (['write_diff', sl.Bv(b'x\n'), None, None, sl.S('mac')], True),
     (['write_diff', sl.Bv(b'x\n'), None, sl.S('nope'), None], True),
+    # text that no codec can encode strictly, from the range an error handler such as surrogateescape would let through
+    (['write_preamble', sl.S('caf\udce9'), None, 'omitted', None, None], True),
+    (['write_preamble', sl.S('\udc80x\n'), sl.S('latin-1'), 'omitted', None, None], True),
+    (['write_preamble', sl.S('a\udcff\n'), sl.S('ascii'), 'omitted', None, None], True),
+    (['write_preamble', sl.S('\udfff'), None, 'omitted', None, None], True),
     # invalid values that are FALSY in Python (a `if value and value not in VALID` guard lets them through)
     (['write_preamble', sl.S('x'), None, 'omitted', sl.S(''), None], True),
     (['write_preamble', sl.S('x'), None, 'omitted', {'i': 0}, None], True),
@@ -483,6 +493,19 @@ class Foreign(Family):
                 for _ in range(2):
                     g, added = gf.add_unknown_options(f, rng)
                     yield dict(kind='unknown-options', file=g, base=f, added={str(k): v for k, v in added.items()})
+                if i < 3:
+                    # every confusable key (internal identifiers, names containing an interpreted option's name) as the
+                    # FIRST and as the LAST option of every header of this file
+                    for key in gf.UNKNOWN_KEYS[7:]:
+                        for k in range(len(f['sections'])):
+                            if key in {o[0] for o in f['sections'][k]['opts']}:
+                                continue
+                            for first in (True, False):
+                                g = json.loads(json.dumps(f))
+                                val = ['2.0', 'x1', '7'][(k + len(key)) % 3]
+                                opts = g['sections'][k]['opts']
+                                opts.insert(0 if first else len(opts), [key, val])
+                                yield dict(kind='unknown-options', file=g, base=f, added={str(k): {key: gf.conv(val)}})
 
     def _impl(self, c):
         if '_impl' not in c:
@@ -1471,6 +1494,14 @@ class Fuzz(Family):
                 yield dict(kind='bom-order', data=hx(b'#diffx: version=1.0, encoding=utf-8\n#%s: encoding=%s, length=%d\n'
                                                     % (sec, enc, len(body)) + body))
             yield dict(kind='bom-order', data=hx(b'#diffx: version=1.0, encoding=%s\n#.preamble: length=%d\n' % (enc, len(body)) + body))
+        # valid JSON with a repeated key whose values cannot be compared with each other, and other JSON oddities
+        for body in [b'{"a":1,"a":"s"}\n', b'{"a":{},"a":{"b":1}}\n', b'{"a":null,"a":1}\n', b'{"a":[1],"a":[2]}\n',
+                     b'{"a":1,"a":2}\n', b'{"":0,"":{}}\n', b'{"a":NaN}\n', b'{"a":Infinity,"a":-Infinity}\n', b'{"a":1e999}\n',
+                     b'[{"a":1,"a":"s"}]\n', b'{"k":{"a":true,"a":"x"}}\n', b'\xef\xbb\xbf{"a":1}\n']:
+            for sec in (b'.meta', b'..meta', b'...meta'):
+                pre = b'#diffx: version=1.0, encoding=utf-8\n' + (b'' if sec == b'.meta' else b'#.change:\n') + \
+                    (b'#..file:\n' if sec == b'...meta' else b'')
+                yield dict(kind='json-oddity', data=hx(pre + b'#%s: format=json, length=%d\n' % (sec, len(body)) + body))
         # deep JSON
         deep = b'[' * 100000 + b']' * 100000 + b'\n'
         yield dict(kind='deep-json', data=hx(b'#diffx: version=1.0, encoding=utf-8\n#.meta: length=%d\n' % len(deep) + deep))
